@@ -18,6 +18,7 @@ import (
 	"io"
 	"net"
 	"os"
+	"runtime"
 	"strconv"
 	"strings"
 	"sync"
@@ -43,7 +44,6 @@ type scriptSrv struct {
 	conns     []*srvConn
 	cutAt     map[int]int  // conn idx -> close after that many reply bytes
 	dropHello map[int]bool // conn idx -> close right after the handshake (the client's flush fails)
-	oneWrite  bool         // answer pipelined commands with separate writes (false: let net.Pipe chunk as the reader reads)
 }
 
 func newScriptSrv() *scriptSrv {
@@ -163,6 +163,25 @@ func (s *scriptSrv) nconns() int {
 	return len(s.conns)
 }
 
+// lateCtx reports Canceled only to (*pipe).DoStream / DoMultiStream: the context "becomes done"
+// after pool.Acquire handed out a live wire and before the command is written.
+type lateCtx struct{ context.Context }
+
+func (c lateCtx) Err() error {
+	pcs := make([]uintptr, 4)
+	n := runtime.Callers(2, pcs)
+	frames := runtime.CallersFrames(pcs[:n])
+	for {
+		f, more := frames.Next()
+		if strings.HasSuffix(f.Function, "(*pipe).DoStream") || strings.HasSuffix(f.Function, "(*pipe).DoMultiStream") {
+			return context.Canceled
+		}
+		if !more {
+			return nil
+		}
+	}
+}
+
 // ---- one episode -----------------------------------------------------------------------------
 
 type e2eCall struct {
@@ -244,6 +263,10 @@ func runEpisode(c *Ctx, p e2ePlan, id int) {
 	defer cancel()
 	if p.entry == "ctxDone" {
 		cancel()
+		sent = nil
+	}
+	if p.entry == "ctxLate" {
+		ctx = lateCtx{context.Background()}
 		sent = nil
 	}
 	cmds := make([]rueidis.Completed, len(keys))
@@ -354,6 +377,12 @@ func runEpisode(c *Ctx, p e2ePlan, id int) {
 	default:
 		pool = fmt.Sprintf("size=%d,idle=%d", sp.Size, len(sp.List))
 	}
+	if p.entry == "ok" && p.cut >= 0 && p.cut < all.Len() && len(p.calls) >= len(keys) && pool == "stored" {
+		fails = append(fails, [3]string{"stream:dirty-wire-stored", "", fmt.Sprintf("the server dropped the connection after %d of %d reply bytes, every reply was asked for, yet the wire went back to the pool without being closed", p.cut, all.Len())})
+	}
+	if p.entry == "ctxLate" && pool == "held" {
+		fails = append(fails, [3]string{"stream:ctx-done-wire-leaked", "", "the context was done when DoStream/DoMultiStream checked it; the acquired wire never went back to the pool"})
+	}
 	final := stickyClass(s.Error())
 	// the next streaming command on this client
 	next := "-"
@@ -449,6 +478,12 @@ func runE2E(c *Ctx) {
 		p.calls = append(p.calls, e2eCall{-1})
 		run(p)
 		p = mk(blob("hello"))
+		p.entry = "ctxLate"
+		run(p)
+		p = mk(blob("a"), blob("b"))
+		p.entry = "ctxLate"
+		run(p)
+		p = mk(blob("hello"))
 		p.entry = "flushErr"
 		run(p)
 		p = mk(blob("a"), blob("b"))
@@ -508,6 +543,9 @@ func runE2E(c *Ctx) {
 			p.entry = "ctxDone"
 		case 1:
 			p.entry = "flushErr"
+			if c.Rng.IntN(2) == 0 {
+				p.entry = "ctxLate"
+			}
 		case 2, 3: // server drops somewhere
 			total := 0
 			for _, r := range p.raw {
@@ -525,13 +563,16 @@ func runE2E(c *Ctx) {
 		for k := c.Rng.IntN(3); k > 0; k-- {
 			p.calls = append(p.calls, e2eCall{-1})
 		}
+		if ncmd > 1 && c.Rng.IntN(10) == 0 {
+			p.calls = p.calls[:1+c.Rng.IntN(ncmd-1)] // the caller stops early: the wire must still be held, not stored
+		}
 		run(p)
 	}
 }
 
 func init() {
 	suites["e2e"] = suite{
-		rule: "end-to-end DoStream/DoMultiStream on the real client (NewClient, DialCtxFn over net.Pipe, streaming pool of no-background pipes) against a scripted server: 1-4 commands per call, replies of every kind (+ pushes in front), entries {ok, context already done, flush fails}, server drops after k reply bytes (every k for a short reply), writers {bytes.Buffer, failing after k bytes}, 0-2 extra WriteTo calls; observed per WriteTo (n, error class, bytes, HasNext), sticky Error(), streaming-pool size/idle list (VerifClientPools), client-side close of the connection, and the connection + payload of the next DoStream; compared with Rv.ResultStream.session; `!next` oracle: the next command's payload is its own; non-trivial = every episode (distinct op line)",
+		rule: "end-to-end DoStream/DoMultiStream on the real client (NewClient, DialCtxFn over net.Pipe, streaming pool of no-background pipes) against a scripted server: 1-4 commands per call, replies of every kind (+ pushes in front), entries {ok, context already done at Acquire, context done between Acquire and the DoStream check, flush fails}, server drops after k reply bytes (every k for a short reply), writers {bytes.Buffer, failing after k bytes}, 0-2 extra WriteTo calls; observed per WriteTo (n, error class, bytes, HasNext), sticky Error(), streaming-pool size/idle list (VerifClientPools), client-side close of the connection, and the connection + payload of the next DoStream; compared with Rv.ResultStream.session; `!next` oracle: the next command's payload is its own; non-trivial = every episode (distinct op line)",
 		run:  runE2E,
 		replay: func(c *Ctx, lines []string) {
 			// an e2e line is replayed with the whole server byte stream as the first command's reply
